@@ -202,7 +202,7 @@ func engineCaseInvCLI(ctx *Ctx) {
 	r := vlib.NewRand(ctx.Seed, ctx.Shard, "caseinv-cli")
 	nDB := ctx.N(64, 1920)
 	for d := 0; d < nDB; d++ {
-		sp := vlib.DBSpec{N: []int{10, 30, 80}[d%3], MixedCase: true, Platforms: d % 2}
+		sp := vlib.DBSpec{N: []int{10, 30, 80}[d%3], MixedCase: true, Platforms: d % 2, Pipelines: true}
 		cmds := vlib.GenCommands(r, sp)
 		// unique command strings so printed items identify entries
 		seen := map[string]bool{}
@@ -320,6 +320,73 @@ func engineCaseInvCLI(ctx *Ctx) {
 					Witness: map[string]interface{}{"case": cs, "a": refs[0], "b": b}})
 			case "inconclusive":
 				ctx.R.Inconcl("cli reference unstable")
+			}
+		}
+		// the other command that takes a query: `wtf pipeline <query>` (what it prints below the line that repeats the query)
+		for qi := 0; qi < ctx.Pick(3, 4); qi++ {
+			q := vlib.GenQuery(r, words, 2+r.Intn(3), 0)
+			if len(strings.Fields(q)) < 2 {
+				continue
+			}
+			var q2 string
+			kind := "case"
+			switch r.Intn(4) {
+			case 0:
+				q2 = c20Respell(r, q, r.Intn(5))
+			case 1: // repeated blanks between the words only
+				kind = "blanks"
+				q2 = strings.Join(strings.Fields(q), strings.Repeat(" ", 2+r.Intn(2)))
+			case 2:
+				kind = "blanks"
+				q2 = " " + strings.Join(strings.Fields(q), "  ") + " "
+			default:
+				kind = "case+blanks"
+				q2 = strings.Repeat(" ", r.Intn(3)) + strings.ReplaceAll(c20Respell(r, q, r.Intn(5)), " ", strings.Repeat(" ", 1+r.Intn(3))) + strings.Repeat(" ", r.Intn(3))
+			}
+			if q2 == q {
+				continue
+			}
+			limit := []int{3, 5, 20}[r.Intn(3)]
+			cs := map[string]interface{}{"db_entries": len(cmds), "command": "pipeline", "query": q, "variant": q2, "kind": kind, "limit": limit}
+			ctx.R.Begin(cs)
+			ctx.R.Eval(1)
+			show := func(query string) (string, bool) {
+				res := h.Wtf(ctx.Wtf, nil, "pipeline", "--database", dbp, "--limit", fmt.Sprint(limit), "-v", "--", query)
+				if bad, why := res.Crashed(); bad {
+					ctx.R.Violate(vlib.Violation{Property: "C20", Clause: "crash", Path: "cli-pipeline", Detail: why, Witness: cs})
+					return "", false
+				}
+				var keep []string
+				for _, l := range strings.Split(res.Stdout, "\n") {
+					if strings.Contains(l, "Searching for pipelines:") {
+						continue
+					}
+					keep = append(keep, l)
+				}
+				return strings.Join(keep, "\n"), true
+			}
+			a1, ok1 := show(q)
+			a2, ok2 := show(q)
+			if !ok1 || !ok2 {
+				continue
+			}
+			if a1 != a2 {
+				ctx.R.Inconcl("cli pipeline reference unstable")
+				continue
+			}
+			b, ok := show(q2)
+			if !ok {
+				continue
+			}
+			ctx.R.Path("cli-pipeline-pairs", 1)
+			if strings.Contains(a1, "Found ") {
+				ctx.R.Path("cli-pipeline-pairs-nonempty", 1)
+				ctx.R.Nontriv("cli-pipeline", d, q, q2, limit)
+			}
+			if b != a1 {
+				ctx.R.Violate(vlib.Violation{Property: "C20", Clause: "cli-variant-changes-output", Path: "cli-pipeline/" + kind,
+					Detail:  fmt.Sprintf("`wtf pipeline` prints different results for %s and %s", vlib.Q(q), vlib.Q(q2)),
+					Witness: map[string]interface{}{"case": cs, "output_a": vlib.Trunc(a1, 1500), "output_b": vlib.Trunc(b, 1500)}})
 			}
 		}
 		os.RemoveAll(base)
